@@ -21,6 +21,7 @@ pub fn rerun(line: &str) -> Option<String> {
     match pre.as_slice() {
         ["buildafter", hx, e, m, v, k, vbig] => Some(crate::gen::buildafter_line(
             &unhex(hx), crate::common::Opts { ecl: optn(e), mode: optn(m), version: optn(v), mask: optn(k) }, vbig.parse().ok()?)),
+        ["buildc", hx, e] => Some(crate::gen::buildc_line(&unhex(hx), optn(e))),
         ["buildvh", m, e, len, f, e0] => Some(crate::gen::buildvh_line(
             m.parse().ok()?, e.parse().ok()?, len.parse().ok()?, optn(f), e0.parse().ok()?)),
         ["buildh", hx, e, m, v, k, e0, m0, v0, k0] => Some(crate::gen::buildh_line(
@@ -56,6 +57,7 @@ pub fn rerun(line: &str) -> Option<String> {
         ["wasm", hx, ops] => Some(crate::wasmops::wasm_line(
             &String::from_utf8(unhex(hx)).ok()?, &crate::wasmops::parse(ops)?)),
         ["wasmqr", hx] => Some(crate::wasmops::wasmqr_line(&String::from_utf8(unhex(hx)).ok()?)),
+        ["after", a, b, e] => Some(crate::histops::after_line(&unhex(a), &unhex(b), optn(e))),
         ["hist", hx, ops] => Some(crate::histops::hist_line(&unhex(hx), &crate::histops::parse(ops)?)),
         ["threads", t, seed, k] => Some(crate::histops::threads_line(t.parse().ok()?, seed.parse().ok()?, k.parse().ok()?)),
         ["file", kind, k, r, size] => Some(crate::faultops::file_line(kind.parse().ok()?, k.parse().ok()?, r, size.parse().ok()?)),
